@@ -81,55 +81,12 @@ impl<P: Problem> Component<P> for Block<P> {
     }
 
     fn execute(&self, problem: &P, state: &mut State<P>) -> ExecResult<()> {
-        #[cfg(feature = "mahf_verif")]
-        {
-            // Always taken; written as a condition to keep the original loop below untouched.
-            if crate::verif::OBSERVE_STEPS {
-                return self.execute_observed(problem, state);
-            }
-        }
         for component in &self.0 {
+            #[cfg(feature = "mahf_verif")]
+            crate::verif::notify_step(problem, state, &self.0, component, crate::verif::StepPhase::Before);
             component.execute(problem, state)?;
-        }
-        Ok(())
-    }
-}
-
-#[cfg(feature = "mahf_verif")]
-impl<P: Problem> Block<P> {
-    /// Same as the plain loop in `execute`, with the step observer notified around every child.
-    fn execute_observed(&self, problem: &P, state: &mut State<P>) -> ExecResult<()> {
-        use crate::verif::{notify, StepInfo, StepPhase};
-        let block = self as *const Self as usize;
-        let len = self.0.len();
-        for (index, component) in self.0.iter().enumerate() {
-            let component: &dyn Component<P> = component.as_ref();
-            notify(
-                problem,
-                state,
-                StepInfo {
-                    component,
-                    index,
-                    len,
-                    block,
-                    phase: StepPhase::Before,
-                    result_is_ok: true,
-                },
-            );
-            let result = component.execute(problem, state);
-            notify(
-                problem,
-                state,
-                StepInfo {
-                    component,
-                    index,
-                    len,
-                    block,
-                    phase: StepPhase::After,
-                    result_is_ok: result.is_ok(),
-                },
-            );
-            result?;
+            #[cfg(feature = "mahf_verif")]
+            crate::verif::notify_step(problem, state, &self.0, component, crate::verif::StepPhase::After);
         }
         Ok(())
     }
